@@ -20,6 +20,21 @@ Fixpoint replay_hist (G : ghist) (R : list request) : ghist :=
 Lemma replay_hist_app : forall R1 R2 G, replay_hist G (R1 ++ R2) = replay_hist (replay_hist G R1) R2.
 Proof. induction R1 as [|[f|f|ins] R1 IH]; intros R2 G; cbn [app replay_hist]; auto. Qed.
 
+(* the AdvanceFrame requests of a request list, each with the frame it simulates (the length of the game's
+   history at that point: a Load truncates it, an Advance extends it) - first simulations and re-simulations alike *)
+Fixpoint adv_frames (G : ghist) (R : list request) : list (Z * frame_inputs) :=
+  match R with
+  | [] => []
+  | RSave _ :: r => adv_frames G r
+  | RLoad f :: r => adv_frames (firstn (Z.to_nat f) G) r
+  | RAdvance ins :: r => (Z.of_nat (length G), ins) :: adv_frames (G ++ [ins]) r
+  end.
+Lemma adv_frames_app : forall R1 R2 G, adv_frames G (R1 ++ R2) = adv_frames G R1 ++ adv_frames (replay_hist G R1) R2.
+Proof.
+  induction R1 as [|[f|f|ins] R1 IH]; intros R2 G; cbn [app replay_hist adv_frames]; auto.
+  rewrite IH. reflexivity.
+Qed.
+
 Lemma fi_eqb_eq : forall a b, fi_eqb a b = true -> a = b.
 Proof.
   induction a as [|[v s] a IH]; intros [|[v' s'] b] H; cbn [fi_eqb] in H; try discriminate; [reflexivity|].
@@ -98,8 +113,8 @@ Lemma input_value : forall c L q hist low q' v st,
   (pi_frame (q_pred q) <> NULL -> pi_val (q_pred q) = predval predict hist) ->
   input predict q c = Ok (q', (v, st)) ->
   q_first_incorrect q' = NULL /\
-  ((c < hlen hist /\ v = hval hist c /\ pi_frame (q_pred q') = NULL) \/
-   (hlen hist <= c /\ v = predval predict hist /\ pi_val (q_pred q') = predval predict hist)).
+  ((c < hlen hist /\ v = hval hist c /\ pi_frame (q_pred q') = NULL /\ st = Confirmed) \/
+   (hlen hist <= c /\ v = predval predict hist /\ pi_val (q_pred q') = predval predict hist /\ st = Predicted)).
 Proof.
   intros c L q hist low q' v st [I P1 P2 P4 Rq [Lw1 Lw2] Cf] Hfi Hc HL Hpv E.
   destruct (ri_low _ _ _ I) as (L0 & L1 & L2). pose proof (hlen_nonneg hist) as Hnn.
@@ -107,15 +122,15 @@ Proof.
   - destruct (Z.lt_ge_cases c (hlen hist)) as [Hlt|Hge].
     + assert (Hf : low <= c < hlen hist) by lia.
       rewrite (input_confirmed predict q hist low c I Hfi P1 Hf) in E. injection E as <- <- <-.
-      split; [exact Hfi|]. left. split; [exact Hlt|]. split; [reflexivity|exact P1].
+      split; [exact Hfi|]. left. split; [exact Hlt|]. split; [reflexivity|]. split; [exact P1|reflexivity].
     + rewrite (input_predict_start predict q hist low c I Hfi P1 Hge Hc) in E. injection E as <- <- <-.
-      split; [exact Hfi|]. right. split; [exact Hge|]. split; reflexivity.
+      split; [exact Hfi|]. right. split; [exact Hge|]. split; [reflexivity|]. split; reflexivity.
   - assert (Hact : pi_frame (q_pred q) <> NULL) by (unfold NULL; lia).
     pose proof (P2 Hact Hfi) as Pl.
     assert (Htl : (if hlen hist =? 0 then NULL else low) <= c) by (destruct (hlen hist =? 0); unfold NULL; lia).
     rewrite (input_predicting predict q hist low c I Hfi P1 Htl) in E. injection E as <- <- <-.
     assert (Hge : hlen hist <= c) by (destruct Rq as [Rq|Rq]; unfold NULL in *; lia).
-    split; [exact Hfi|]. right. split; [exact Hge|]. split; [exact (Hpv Hact)|exact (Hpv Hact)].
+    split; [exact Hfi|]. right. split; [exact Hge|]. split; [exact (Hpv Hact)|]. split; [exact (Hpv Hact)|reflexivity].
 Qed.
 
 
@@ -136,7 +151,7 @@ Proof.
     destruct (Z.eq_dec f c) as [->|Hne].
     + rewrite <- HG at 1. rewrite gvalL_app_new. destruct Hcase as [(A & _)|(_ & B & _)]; [lia|exact B].
     + rewrite gvalL_app_old by lia. apply Gp; [exact Hfi|lia|exact Hfl].
-  - intros Hact _. destruct Hcase as [(_ & _ & A)|(_ & _ & A)]; [congruence|exact A].
+  - intros Hact _. destruct Hcase as [(_ & _ & A & _)|(_ & _ & A & _)]; [congruence|exact A].
 Qed.
 
 Lemma sync_inputs_pointwise : forall st qs c qs' ins,
@@ -177,6 +192,108 @@ Proof.
   - rewrite Hv. exact (Hpt h q q' (v, stt) Eq B Ei).
 Qed.
 
+
+Lemma hval_app_old : forall hist ext f, 0 <= f < hlen hist -> hval (hist ++ ext) f = hval hist f.
+Proof. intros hist ext f Hf. unfold hval, hlen in *. rewrite app_nth1 by lia. reflexivity. Qed.
+
+(* ---------- truthful requests (C03) ---------- *)
+(* what an AdvanceFrame request for frame f says about one player, against the inputs held for that player:
+   Confirmed = the frame is held and the value is the held input; Predicted = the frame lies beyond everything
+   held and the value is the predictor applied to the newest held input (the default input if none) *)
+Definition truthful1 (hist : list Z) (f : Z) (i : Z * istatus) : Prop :=
+  (snd i = Confirmed /\ f < hlen hist /\ fst i = hval hist f) \/
+  (snd i = Predicted /\ hlen hist <= f /\ fst i = predval predict hist).
+Definition truthful (gs : list ghost) (fi : Z * frame_inputs) : Prop :=
+  Forall2 (fun (g : ghost) i => truthful1 (fst g) (fst fi) i) gs (snd fi).
+Definition truthful_lt (c : Z) (gs : list ghost) (fi : Z * frame_inputs) : Prop := 0 <= fst fi < c /\ truthful gs fi.
+
+Lemma Forall2_pointwise {A B} (R : A -> B -> Prop) : forall l1 l2, length l1 = length l2 ->
+  (forall i a b, nth_error l1 i = Some a -> nth_error l2 i = Some b -> R a b) -> Forall2 R l1 l2.
+Proof.
+  induction l1 as [|x l1 IH]; intros [|y l2] Hl Hp; try discriminate; constructor.
+  - apply (Hp O); reflexivity.
+  - apply IH; [cbn in Hl; lia|]. intros i a b Ha Hb. apply (Hp (S i)); assumption.
+Qed.
+
+Lemma read_truthful : forall st qs gs c L G qs' ins,
+  sync_inputs_go predict c qs st = Ok (qs', ins) -> QsI c L qs gs -> all_clean qs ->
+  connected st -> length st = length qs -> 0 <= c -> L <= c ->
+  GIl c G qs gs -> truthful gs (c, ins).
+Proof.
+  intros st qs gs c L G qs' ins E HQ Hcl Hcon Hlen Hc HL HGI.
+  destruct (sync_inputs_pointwise st qs c qs' ins E Hcon Hlen) as (L1 & L2 & Hpt).
+  pose proof (QsI_length _ _ _ _ HQ) as Hlq.
+  apply Forall2_pointwise; [cbn [snd]; lia|]. cbn [fst snd]. intros h gh i C Ei.
+  destruct (nth_error qs h) as [q|] eqn:Eq; [|apply nth_error_None in Eq; assert (nth_error gs h <> None) as X by congruence; apply nth_error_Some in X; lia].
+  destruct (nth_error qs' h) as [q'|] eqn:Eq'; [|apply nth_error_None in Eq'; assert (nth_error qs h <> None) as X by congruence; apply nth_error_Some in X; lia].
+  pose proof (Forall2_nth _ _ _ _ _ _ HQ Eq C) as Hqi. cbv beta in Hqi.
+  assert (Hfq : q_first_incorrect q = NULL).
+  { unfold all_clean in Hcl. rewrite Forall_forall in Hcl. apply Hcl. eapply nth_error_In. exact Eq. }
+  destruct i as [v stt]. pose proof (Hpt h q q' (v, stt) Eq Eq' Ei) as Ein.
+  destruct (input_value c L q (fst gh) (snd gh) q' v stt Hqi Hfq Hc HL (fun A => gq_pv _ _ _ _ _ (HGI h q gh Eq C) A Hfq) Ein) as (_ & [(A1 & A2 & _ & A4)|(A1 & A2 & _ & A4)]).
+  - left. cbn [fst snd]. repeat split; assumption.
+  - right. cbn [fst snd]. repeat split; assumption.
+Qed.
+
+Lemma truthful_map_fst : forall gs gs' fi, map fst gs' = map fst gs -> truthful gs fi -> truthful gs' fi.
+Proof.
+  intros gs gs' fi Hm H. unfold truthful in *. revert gs' Hm.
+  induction H as [|g i gs ins Hgi H IH]; intros [|g' gs'] Hm; try discriminate; constructor.
+  - cbn in Hm. injection Hm as -> _. exact Hgi.
+  - apply IH. cbn in Hm. injection Hm as _ ->. reflexivity.
+Qed.
+
+(* the histories only grow while the local inputs are registered, and only histories that already reach the
+   current frame: what was said about an earlier frame stays true *)
+Lemma truthful_grows_all : forall c qs gs qs' gs' fi,
+  grows_all c qs gs qs' gs' -> length qs' = length gs' -> length gs' = length gs ->
+  truthful_lt c gs fi -> truthful gs' fi.
+Proof.
+  intros c qs gs qs' gs' fi Hg Hl1 Hl2 (Hlt & H). unfold truthful in *.
+  pose proof (Forall2_len _ _ _ H) as Hl3.
+  apply Forall2_pointwise; [lia|]. intros h gh' i C Ei.
+  destruct (nth_error qs' h) as [q'|] eqn:Eq'; [|apply nth_error_None in Eq'; assert (nth_error gs' h <> None) as X by congruence; apply nth_error_Some in X; lia].
+  destruct (Hg h q' gh' Eq' C) as (q & gh & Eq & Cg & (_ & _ & Hh)).
+  pose proof (Forall2_nth _ _ _ _ _ _ H Cg Ei) as T. cbv beta in T.
+  destruct Hh as [->|(Hreach & _ & _ & ext & ->)]; [exact T|].
+  destruct T as [(T1 & T2 & T3)|(T1 & T2 & T3)]; [|lia].
+  left. split; [exact T1|]. split; [unfold hlen in *; rewrite app_length; lia|]. rewrite T3. symmetry. apply hval_app_old. lia.
+Qed.
+
+(* two readings of a truthful request *)
+Lemma truthful_held : forall gs f ins h hist low v st,
+  truthful gs (f, ins) -> nth_error gs h = Some (hist, low) -> nth_error ins h = Some (v, st) ->
+  (st = Confirmed \/ st = Predicted) /\ (f < hlen hist -> st = Confirmed /\ v = hval hist f) /\
+  (st = Predicted -> hlen hist <= f /\ v = predval predict hist).
+Proof.
+  clear predict_idem predict_zero.
+  intros gs f ins h hist low v st H A B. unfold truthful in H. cbn [fst snd] in H.
+  pose proof (Forall2_nth _ _ _ _ _ _ H A B) as T. cbv beta in T. unfold truthful1 in T. cbn [fst snd] in T.
+  destruct T as [(T1 & T2 & T3)|(T1 & T2 & T3)].
+  - split; [left; exact T1|]. split; [intros _; split; assumption|]. intros X. congruence.
+  - split; [right; exact T1|]. split; [intros X; lia|]. intros _. split; assumption.
+Qed.
+
+Lemma truthful_local : forall sp w d p gs f ins h v st,
+  QSg sp w d p gs -> truthful_lt (s_current (ps_sync p)) gs (f, ins) ->
+  nth_error (ps_kinds p) h = Some KLocal -> nth_error ins h = Some (v, st) ->
+  st = Confirmed /\ exists hist low, nth_error gs h = Some (hist, low) /\ f < hlen hist /\ v = hval hist f.
+Proof.
+  clear predict_idem predict_zero.
+  intros sp w d p gs f ins h v st HQS ((Hf0 & Hfc) & H) Hk Hi. cbn [fst] in Hf0, Hfc.
+  pose proof (Forall2_len _ _ _ H) as Hl. cbn [snd] in Hl.
+  assert (exists gh, nth_error gs h = Some gh) as ([hist low] & Hg).
+  { destruct (nth_error gs h) eqn:X; [eauto|]. exfalso. apply nth_error_None in X.
+    assert (h < length ins)%nat by (apply nth_error_Some; congruence). unfold ghost in *. lia. }
+  pose proof (qs_qs _ _ _ _ HQS) as HQ. pose proof (QsI_length _ _ _ _ HQ) as Hlq.
+  destruct (nth_error_some_len (s_queues (ps_sync p)) gs h (hist, low) Hlq Hg) as (q & Hq).
+  pose proof (qs_kinds _ _ _ _ HQS h KLocal q (hist, low) Hk Hq Hg) as HK. cbn [fst] in HK.
+  destruct (qs_d _ _ _ _ HQS) as (Hd & _).
+  pose proof (KI_local_reach _ _ _ _ Hd HK) as Hreach.
+  destruct (truthful_held gs f ins h hist low v st H Hg Hi) as (_ & T & _).
+  destruct (T ltac:(lia)) as (T1 & T2).
+  split; [exact T1|]. exists hist, low. split; [exact Hg|]. split; [lia|exact T2].
+Qed.
 
 (* ---------- a queue that is not predicting has every simulated frame's input (at call boundaries) ---------- *)
 Definition PNl (c : Z) (qs : list queue) (gs : list ghost) : Prop :=
@@ -227,12 +344,13 @@ Lemma resim_gi : forall n i p gs L mc o p' o' G,
     GIl (s_current (ps_sync p) + Z.of_nat n) (replay_hist G R) (s_queues (ps_sync p')) gs /\
     glen (replay_hist G R) = s_current (ps_sync p) + Z.of_nat n /\
     ((0 < n)%nat \/ PNl (s_current (ps_sync p)) (s_queues (ps_sync p)) gs ->
-     PNl (s_current (ps_sync p) + Z.of_nat n) (s_queues (ps_sync p')) gs).
+     PNl (s_current (ps_sync p) + Z.of_nat n) (s_queues (ps_sync p')) gs) /\
+    Forall (truthful_lt (s_current (ps_sync p) + Z.of_nat n) gs) (adv_frames G R).
 Proof.
   induction n as [|n IH]; intros i p gs L mc o p' o' G E Hcon Hlen HQ Hcl Hc HL HG HGI.
   - cbn [resim_go] in E. injection E as <- <-. exists []. rewrite app_nil_r, Z.add_0_r. cbn [replay_hist].
     split; [reflexivity|]. split; [intros f []|]. split; [exact HGI|]. split; [exact HG|].
-    intros [X|X]; [lia|exact X].
+    split; [intros [X|X]; [lia|exact X]|constructor].
   - cbn [resim_go] in E. unfold synchronized_inputs in E.
     destruct (sync_inputs_go_ok predict (ps_status p) (s_queues (ps_sync p)) gs (s_current (ps_sync p)) L HQ Hcl Hlen Hcon Hc HL)
       as (qs' & ins & E0 & HQ' & Hcl' & Hl' & _ & _ & _).
@@ -246,22 +364,22 @@ Proof.
                 else
                   (if 0 <? i then res_bind (save_current_state s1) (fun '(s2, r) => Ok (s2, add_req o r)) else Ok (s1, o))) = Ok (s2, o2) /\
                      s_queues s2 = qs' /\ s_current s2 = s_current (ps_sync p) /\
-                     o_requests o2 = o_requests o ++ SV /\ no_loads SV /\ (forall G0, replay_hist G0 SV = G0)).
+                     o_requests o2 = o_requests o ++ SV /\ no_loads SV /\ (forall G0, replay_hist G0 SV = G0) /\ (forall G0, adv_frames G0 SV = [])).
     { assert (Hsv : exists s2 o2 SV, res_bind (save_current_state s1) (fun '(s2, r) => Ok (s2, add_req o r)) = Ok (s2, o2) /\
                      s_queues s2 = qs' /\ s_current s2 = s_current (ps_sync p) /\
-                     o_requests o2 = o_requests o ++ SV /\ no_loads SV /\ (forall G0, replay_hist G0 SV = G0)).
+                     o_requests o2 = o_requests o ++ SV /\ no_loads SV /\ (forall G0, replay_hist G0 SV = G0) /\ (forall G0, adv_frames G0 SV = [])).
       { unfold save_current_state. subst s1. cbn [with_queues s_current].
         assert ((s_current (ps_sync p) <? 0) = false) as -> by lia. cbn [res_bind].
         eexists; eexists; exists [RSave (s_current (ps_sync p))]. split; [reflexivity|]. repeat split.
         intros f [A|[]]. discriminate A. }
       assert (Hns : exists s2 o2 SV, Ok (s1, o) = Ok (s2, o2) /\
                      s_queues s2 = qs' /\ s_current s2 = s_current (ps_sync p) /\
-                     o_requests o2 = o_requests o ++ SV /\ no_loads SV /\ (forall G0, replay_hist G0 SV = G0)).
+                     o_requests o2 = o_requests o ++ SV /\ no_loads SV /\ (forall G0, replay_hist G0 SV = G0) /\ (forall G0, adv_frames G0 SV = [])).
       { exists s1, o, []. split; [reflexivity|]. rewrite app_nil_r. repeat split. intros f []. }
       destruct (ps_sparse p); [destruct (s_current s1 =? mc)|destruct (0 <? i)]; assumption. }
-    destruct Hsave as (s2 & o2 & SV & Es & Hq2 & Hc2 & Ho2 & HnS & HrS). rewrite Es in E. cbn [res_bind] in E.
+    destruct Hsave as (s2 & o2 & SV & Es & Hq2 & Hc2 & Ho2 & HnS & HrS & HaS). rewrite Es in E. cbn [res_bind] in E.
     set (p1 := with_sync p (advance_frame s2)) in *.
-    destruct (IH (i + 1) p1 gs L mc (add_req o2 (RAdvance ins)) p' o' (G ++ [ins]) E) as (R & Ho & HnR & HGI' & HG' & HPN').
+    destruct (IH (i + 1) p1 gs L mc (add_req o2 (RAdvance ins)) p' o' (G ++ [ins]) E) as (R & Ho & HnR & HGI' & HG' & HPN' & HTR').
     + exact Hcon.
     + subst p1. cbn [with_sync ps_status ps_sync advance_frame with_current s_queues]. rewrite Hq2.
       pose proof (QsI_length _ _ _ _ HQ'). pose proof (QsI_length _ _ _ _ HQ). lia.
@@ -271,14 +389,18 @@ Proof.
     + subst p1. cbn [with_sync ps_sync advance_frame with_current s_current]. lia.
     + subst p1. cbn [with_sync ps_sync advance_frame with_current s_current]. rewrite Hc2, glen_app. lia.
     + subst p1. cbn [with_sync ps_sync advance_frame with_current s_current s_queues]. rewrite Hc2, Hq2. exact HGI1.
-    + subst p1. cbn [with_sync ps_sync advance_frame with_current s_current s_queues] in HGI', HG', HPN'. rewrite Hc2 in HGI', HG', HPN'. rewrite Hq2 in HPN'.
+    + subst p1. cbn [with_sync ps_sync advance_frame with_current s_current s_queues] in HGI', HG', HPN', HTR'. rewrite Hc2 in HGI', HG', HPN', HTR'. rewrite Hq2 in HPN'.
       exists (SV ++ RAdvance ins :: R). split.
       { rewrite Ho. cbn [add_req o_requests]. rewrite Ho2, <- !app_assoc. reflexivity. }
       split.
       { intros f Hin. apply in_app_or in Hin. destruct Hin as [Hin|[Hin|Hin]]; [exact (HnS f Hin)|discriminate Hin|exact (HnR f Hin)]. }
       rewrite replay_hist_app, HrS. cbn [replay_hist].
       replace (s_current (ps_sync p) + Z.of_nat (S n)) with (s_current (ps_sync p) + 1 + Z.of_nat n) by lia.
-      split; [exact HGI'|]. split; [rewrite HG'; lia|]. intros _. apply HPN'. right. exact HPN1.
+      split; [exact HGI'|]. split; [rewrite HG'; lia|]. split; [intros _; apply HPN'; right; exact HPN1|].
+      rewrite adv_frames_app, HaS, HrS. cbn [app adv_frames]. constructor; [|exact HTR'].
+      split; [cbn [fst]; unfold glen in HG; lia|].
+      replace (Z.of_nat (length G)) with (s_current (ps_sync p)) by (unfold glen in HG; lia).
+      eapply read_truthful; try eassumption; lia.
 Qed.
 
 
@@ -314,7 +436,8 @@ Lemma adjust_gi_gen : forall p gs L fi mc o p' o' G,
   exists R, o_requests o' = o_requests o ++ R /\
     GIl (s_current (ps_sync p)) (replay_hist G R) (s_queues (ps_sync p')) gs /\
     glen (replay_hist G R) = s_current (ps_sync p) /\
-    PNl (s_current (ps_sync p)) (s_queues (ps_sync p')) gs.
+    PNl (s_current (ps_sync p)) (s_queues (ps_sync p')) gs /\
+    Forall (truthful_lt (s_current (ps_sync p)) gs) (adv_frames G R).
 Proof.
   intros p gs L fi mc o p' o' G E Hcon Hlen HQ HLfl HL Hmin HG HGI.
   unfold adjust_gamestate in E.
@@ -326,7 +449,7 @@ Proof.
   set (p1 := with_sync p (reset_all (with_current (ps_sync p) fl))) in *.
   destruct (resim_go predict (Z.to_nat (c - fl)) 0 p1 mc (add_req o (RLoad fl))) as [[p2 o2]| |] eqn:Er; cbn [res_bind] in E; try discriminate.
   destruct (negb (s_current (ps_sync p2) =? c)); [discriminate|]. injection E as <- <-.
-  destruct (resim_gi (Z.to_nat (c - fl)) 0 p1 gs L mc (add_req o (RLoad fl)) p2 o2 (firstn (Z.to_nat fl) G) Er) as (R & Ho & _ & HGI' & HG' & HPN').
+  destruct (resim_gi (Z.to_nat (c - fl)) 0 p1 gs L mc (add_req o (RLoad fl)) p2 o2 (firstn (Z.to_nat fl) G) Er) as (R & Ho & _ & HGI' & HG' & HPN' & HTR').
   - exact Hcon.
   - subst p1. cbn [with_sync ps_status ps_sync reset_all with_queues s_queues with_current]. rewrite map_length. exact Hlen.
   - subst p1. cbn [with_sync ps_sync reset_all with_queues s_queues s_current with_current]. eapply QsI_reset. exact HQ.
@@ -336,10 +459,10 @@ Proof.
   - subst p1. cbn [with_sync ps_sync reset_all with_queues s_current with_current]. apply glen_firstn. lia.
   - subst p1. cbn [with_sync ps_sync reset_all with_queues s_current s_queues with_current].
     eapply gi_load_reset; try eassumption. lia.
-  - subst p1. cbn [with_sync ps_sync reset_all with_queues s_current with_current] in HGI', HG', HPN'.
-    replace (fl + Z.of_nat (Z.to_nat (c - fl))) with c in HGI', HG', HPN' by lia.
+  - subst p1. cbn [with_sync ps_sync reset_all with_queues s_current with_current] in HGI', HG', HPN', HTR'.
+    replace (fl + Z.of_nat (Z.to_nat (c - fl))) with c in HGI', HG', HPN', HTR' by lia.
     exists (RLoad fl :: R). split; [rewrite Ho; cbn [add_req o_requests]; rewrite <- app_assoc; reflexivity|].
-    cbn [replay_hist]. split; [exact HGI'|]. split; [exact HG'|]. apply HPN'. left. lia.
+    cbn [replay_hist adv_frames]. split; [exact HGI'|]. split; [exact HG'|]. split; [apply HPN'; left; lia|exact HTR'].
 Qed.
 
 Lemma adjust_gi : forall p gs L fi mc o p' o' G,
@@ -353,7 +476,8 @@ Lemma adjust_gi : forall p gs L fi mc o p' o' G,
   exists R, o_requests o' = o_requests o ++ R /\
     GIl (s_current (ps_sync p)) (replay_hist G R) (s_queues (ps_sync p')) gs /\
     glen (replay_hist G R) = s_current (ps_sync p) /\
-    PNl (s_current (ps_sync p)) (s_queues (ps_sync p')) gs.
+    PNl (s_current (ps_sync p)) (s_queues (ps_sync p')) gs /\
+    Forall (truthful_lt (s_current (ps_sync p)) gs) (adv_frames G R).
 Proof.
   intros p gs L fi mc o p' o' G E Hsp Hcon Hlen HQ HLfi Hfic HL Hmin HG HGI.
   apply (adjust_gi_gen p gs L fi mc o p' o' G E Hcon Hlen HQ); rewrite ?Hsp; try assumption. lia.
@@ -392,8 +516,6 @@ Lemma GQ_ext : forall c G h q q' hist,
   q_first_incorrect q' = q_first_incorrect q -> q_pred q' = q_pred q -> GQ c G h q hist -> GQ c G h q' hist.
 Proof. intros c G h q q' hist F P [A B C]. constructor; rewrite ?F, ?P; assumption. Qed.
 
-Lemma hval_app_old : forall hist ext f, 0 <= f < hlen hist -> hval (hist ++ ext) f = hval hist f.
-Proof. intros hist ext f Hf. unfold hval, hlen in *. rewrite app_nth1 by lia. reflexivity. Qed.
 
 Lemma GQ_grows : forall c G h q q' hist hist',
   grows c q hist q' hist' -> GQ c G h q hist -> GQ c G h q' hist'.
@@ -418,7 +540,8 @@ Lemma handle_rollback_ti : forall p gs cf o p1 o1 G,
   PNl (s_current (ps_sync p)) (s_queues (ps_sync p)) gs ->
   exists R, o_requests o1 = o_requests o ++ R /\
     GIl (s_current (ps_sync p)) (replay_hist G R) (s_queues (ps_sync p1)) gs /\
-    glen (replay_hist G R) = s_current (ps_sync p) /\ PNl (s_current (ps_sync p)) (s_queues (ps_sync p1)) gs.
+    glen (replay_hist G R) = s_current (ps_sync p) /\ PNl (s_current (ps_sync p)) (s_queues (ps_sync p1)) gs /\
+    Forall (truthful_lt (s_current (ps_sync p)) gs) (adv_frames G R).
 Proof.
   intros p gs cf o p1 o1 G E Hsp Hcon Hlen Hdf HQ HL Hc HG HGI HPN.
   unfold handle_rollback_and_save, check_simulation_consistency in E. rewrite Hdf in E.
@@ -429,10 +552,10 @@ Proof.
   - rewrite Hr, Z.eqb_refl in E. cbn [res_bind] in E. rewrite Hsp in E.
     unfold save_current_state in E. destruct (s_current (ps_sync p) <? 0); [discriminate|]. cbn [res_bind] in E.
     injection E as <- <-. exists [RSave (s_current (ps_sync p))]. cbn [with_sync ps_sync s_queues replay_hist add_req o_requests].
-    split; [reflexivity|]. split; [exact HGI|]. split; [exact HG|exact HPN].
+    split; [reflexivity|]. split; [exact HGI|]. split; [exact HG|]. split; [exact HPN|constructor].
   - assert ((fi =? NULL) = false) as Hfn by (unfold NULL in *; lia). rewrite Hfn in E.
     destruct (adjust_gamestate predict p fi cf o) as [[p2 o2]| |] eqn:Ea; cbn [res_bind] in E; try discriminate.
-    destruct (adjust_gi p gs (s_last_confirmed (ps_sync p)) fi cf o p2 o2 G Ea Hsp Hcon Hlen HQ) as (R & Ho & HGI' & HG' & HPN'); try lia; try assumption.
+    destruct (adjust_gi p gs (s_last_confirmed (ps_sync p)) fi cf o p2 o2 G Ea Hsp Hcon Hlen HQ) as (R & Ho & HGI' & HG' & HPN' & HTR'); try lia; try assumption.
     { eapply Forall_impl; [|exact Hmin]. cbv beta. intros q [A|(A & B)]; [left; exact A|right; exact B]. }
     cbn [with_disc_frame ps_sparse ps_sync] in E.
     assert (Hsp2 : ps_sparse p2 = false) by (rewrite (adjust_shape predict _ _ _ _ _ _ Ea); cbn; exact Hsp).
@@ -440,7 +563,8 @@ Proof.
     destruct (s_current (ps_sync p2) <? 0); [discriminate|]. cbn [res_bind] in E. injection E as <- <-.
     exists (R ++ [RSave (s_current (ps_sync p2))]). cbn [with_sync ps_sync s_queues add_req o_requests].
     split; [rewrite Ho, <- app_assoc; reflexivity|]. rewrite replay_hist_app. cbn [replay_hist].
-    split; [exact HGI'|]. split; [exact HG'|exact HPN'].
+    split; [exact HGI'|]. split; [exact HG'|]. split; [exact HPN'|].
+    rewrite adv_frames_app. cbn [adv_frames]. rewrite app_nil_r. exact HTR'.
 Qed.
 
 
@@ -510,7 +634,8 @@ Qed.
 Definition HRti (p : p2p) (gs : list ghost) (cf : Z) (o : pout) (G : ghist) : Prop :=
   exists p1 o1 R, HRpost predict p gs cf o p1 o1 /\ o_requests o1 = o_requests o ++ R /\
     GIl (s_current (ps_sync p)) (replay_hist G R) (s_queues (ps_sync p1)) gs /\
-    glen (replay_hist G R) = s_current (ps_sync p) /\ PNl (s_current (ps_sync p)) (s_queues (ps_sync p1)) gs.
+    glen (replay_hist G R) = s_current (ps_sync p) /\ PNl (s_current (ps_sync p)) (s_queues (ps_sync p1)) gs /\
+    Forall (truthful_lt (s_current (ps_sync p)) gs) (adv_frames G R).
 
 Lemma advance_rollback_timeline_gen : forall sp p gs w d o p' o' G,
   advance_rollback_frame predict p o = Ok (p', o') ->
@@ -521,6 +646,7 @@ Lemma advance_rollback_timeline_gen : forall sp p gs w d o p' o' G,
   TI p gs G ->
   exists gs' R, o_requests o' = o_requests o ++ R /\ QSg sp w d p' gs' /\ TI p' gs' (replay_hist G R) /\
     hist_step d (ps_pending p) (local_handles p) gs gs' /\ ps_kinds p' = ps_kinds p /\
+    Forall (truthful_lt (s_current (ps_sync p')) gs') (adv_frames G R) /\
     exists cf, confirmed_frame p = Ok cf /\ o_spec_sends o' = o_spec_sends o ++ spec_sent p gs cf /\
                ps_next_spec p' = next_spec_after p cf /\ ps_spectators p' = ps_spectators p.
 Proof.
@@ -531,7 +657,7 @@ Proof.
   pose proof HQS as [Hw Hd Hmode Hn Hconn Hgos HQ Hlast Hfr Hkinds Hpe Hsok].
   destruct Hmode as (Hrun & Hsp & Hdf). destruct Hn as (Hn1 & Hn2 & Hn3 & Hn4). destruct Hfr as (HfL & Hfc & Hfw).
   pose proof (QsI_length _ _ _ _ HQ) as Hlq.
-  destruct (Hroll cf Ecf HLcf Hcfg) as (p1' & o1' & R1 & (Er' & _) & Ho1 & HGI1 & HG1 & HPN1).
+  destruct (Hroll cf Ecf HLcf Hcfg) as (p1' & o1' & R1 & (Er' & _) & Ho1 & HGI1 & HG1 & HPN1 & HTR1).
   rewrite Er in Er'. injection Er' as <- <-.
   unfold advance_rollback_frame in E. rewrite Ecf in E. cbn [res_bind] in E. rewrite Er in E. cbn [res_bind] in E.
   rewrite Es in E. cbn [res_bind] in E.
@@ -590,11 +716,19 @@ Proof.
   { rewrite O5. cbn [with_outgoing ps_kinds]. destruct Hrest4 as (_ & _ & _ & _ & _ & X & _). exact X. }
   subst p3. cbn [with_sync ps_sync] in Hc4, Hgrow4, Hdone4. rewrite Hc3 in Hc4, Hgrow4, Hdone4. fold c in Hc4, Hgrow4, Hdone4. set (p3 := with_sync p2 s3) in *.
   pose proof (GIl_grows _ _ _ _ _ _ Hgrow4 HGI3) as HGI4. pose proof (PNl_grows _ _ _ _ _ Hgrow4 HPN3) as HPN4.
+  assert (HTR4 : Forall (truthful_lt c gs4) (adv_frames G R1)).
+  { pose proof (QsI_length _ _ _ _ (qs_qs _ _ _ _ HQS4)) as Hl44.
+    assert (Hl43 : length gs4 = length gs3).
+    { destruct (qs_n _ _ _ _ HQS4) as (_ & _ & A & _). destruct (qs_n _ _ _ _ HQS3) as (_ & _ & B & _).
+      destruct Hrest4 as (_ & _ & _ & _ & _ & X & _). rewrite X in A. congruence. }
+    eapply Forall_impl; [|exact HTR1]. intros fi (Hlt & Ht). split; [exact Hlt|].
+    apply (truthful_grows_all c (s_queues s3) gs3 (s_queues (ps_sync p4)) gs4 fi Hgrow4 Hl44 Hl43).
+    split; [exact Hlt|]. apply (truthful_map_fst gs gs3); [exact Hmap3|exact Ht]. }
   set (s4 := ps_sync p4) in *.
   set (L4 := s_last_confirmed s4) in *.
   set (fa := if L4 =? NULL then s_current s4 else s_current s4 - L4) in *.
   destruct (fa <? w) eqn:Eg.
-  2:{ injection E as <- <-. exists gs4, R1. split; [rewrite Ho5; exact Ho1|]. split; [exact HQS5|]. split; [|split; [exact Hhist|split; [congruence|exists cf; split; [exact Ecf|split; [exact Hsp5|split; [exact Hns5|exact Hss5]]]]]].
+  2:{ injection E as <- <-. exists gs4, R1. split; [rewrite Ho5; exact Ho1|]. split; [exact HQS5|]. split; [|split; [exact Hhist|split; [congruence|split; [rewrite Hs5; fold s4; rewrite Hc4; exact HTR4|exists cf; split; [exact Ecf|split; [exact Hsp5|split; [exact Hns5|exact Hss5]]]]]]].
       unfold TI. rewrite Hs5. fold s4. rewrite Hc4. split; [exact HG1|]. split; [exact HGI4|exact HPN4]. }
   pose proof HQS5 as [Hw5 Hd5 Hmode5 Hn5 Hconn5 Hgos5 HQ5 Hlast5 Hfr5 Hkinds5 Hpe5 Hsok5].
   rewrite Hs5 in HQ5, Hfr5. fold s4 L4 in HQ5, Hfr5. rewrite Hc4 in HQ5, Hfr5.
@@ -638,7 +772,12 @@ Proof.
       * exact HK.
     + intros h pi X. discriminate X.
     + eapply spec_ok_grow; [exact Hsok5|reflexivity|reflexivity|cbn; rewrite Hs5; reflexivity|apply grow_refl].
-  - split; [|split; [exact Hhist|split; [cbn [with_sync with_pending ps_kinds]; congruence|exists cf; split; [exact Ecf|split; [cbn [add_req o_spec_sends]; exact Hsp5|split; [cbn; exact Hns5|cbn; exact Hss5]]]]]].
+  - split; [|split; [exact Hhist|split; [cbn [with_sync with_pending ps_kinds]; congruence|split; [|exists cf; split; [exact Ecf|split; [cbn [add_req o_spec_sends]; exact Hsp5|split; [cbn; exact Hns5|cbn; exact Hss5]]]]]]].
+    2:{ cbn [with_sync with_pending ps_sync advance_frame with_current with_queues s_current]. rewrite Hc4.
+        rewrite adv_frames_app. cbn [adv_frames]. apply Forall_app. split.
+        - eapply Forall_impl; [|exact HTR4]. intros fi (Hlt & Ht). split; [lia|exact Ht].
+        - constructor; [|constructor]. fold G1. replace (Z.of_nat (length G1)) with c by (unfold glen in HG1; lia).
+          split; [cbn [fst]; lia|]. eapply read_truthful; try eassumption; lia. }
     unfold TI. cbn [with_sync ps_sync advance_frame with_current with_queues s_current s_queues]. rewrite Hc4.
     rewrite replay_hist_app. cbn [replay_hist]. fold G1.
     split; [rewrite glen_app; lia|]. split.
@@ -658,8 +797,8 @@ Proof.
   destruct Hmode as (Hrun & Hsp & Hdf). destruct Hn as (Hn1 & Hn2 & Hn3 & Hn4). destruct Hfr as (HfL & Hfc & Hfw).
   pose proof (QsI_length _ _ _ _ HQ) as Hlq.
   destruct (handle_rollback_ti p gs cf o p1 o1 G Er Hsp Hconn ltac:(lia) Hdf HQ ltac:(lia) Hfc HG HGI HPN)
-    as (R1 & Ho1 & HGI1 & HG1 & HPN1).
-  exists p1, o1, R1. split; [exact HR|]. split; [exact Ho1|]. split; [exact HGI1|]. split; [exact HG1|exact HPN1].
+    as (R1 & Ho1 & HGI1 & HG1 & HPN1 & HTR1).
+  exists p1, o1, R1. split; [exact HR|]. split; [exact Ho1|]. split; [exact HGI1|]. split; [exact HG1|]. split; [exact HPN1|exact HTR1].
 Qed.
 
 Lemma advance_rollback_timeline : forall p gs g w d o p' o' G,
@@ -669,6 +808,7 @@ Lemma advance_rollback_timeline : forall p gs g w d o p' o' G,
   TI p gs G ->
   exists gs' R, o_requests o' = o_requests o ++ R /\ QS w d p' gs' /\ TI p' gs' (replay_hist G R) /\
     hist_step d (ps_pending p) (local_handles p) gs gs' /\ ps_kinds p' = ps_kinds p /\
+    Forall (truthful_lt (s_current (ps_sync p')) gs') (adv_frames G R) /\
     exists cf, confirmed_frame p = Ok cf /\ o_spec_sends o' = o_spec_sends o ++ spec_sent p gs cf /\
                ps_next_spec p' = next_spec_after p cf /\ ps_spectators p' = ps_spectators p.
 Proof.
@@ -721,14 +861,15 @@ Lemma advance_timeline : forall p gs g w d p' o r G,
   advance predict p = Ok (p', o, r) ->
   QS w d p gs -> JI w p g -> Forall (fun c => cs_last c < I32MAX) (ps_status p) -> TI p gs G ->
   exists gs', QS w d p' gs' /\ TI p' gs' (replay_hist G (o_requests o)) /\
-    hist_step d (ps_pending p) (local_handles p) gs gs' /\ ps_kinds p' = ps_kinds p /\ spec_step p gs o p'.
+    hist_step d (ps_pending p) (local_handles p) gs gs' /\ ps_kinds p' = ps_kinds p /\ spec_step p gs o p' /\
+    Forall (truthful_lt (s_current (ps_sync p')) gs') (adv_frames G (o_requests o)).
 Proof.
   intros p gs g w d p' o r G E HQS HJI Hbnd HTI.
   pose proof HQS as [Hw Hd Hmode Hn Hconn Hgos HQ Hlast Hfr Hkinds Hpe Hsok].
   destruct Hw as (Hw1 & Hw2 & Hw3). destruct Hmode as (Hrun & Hsp & Hdf).
   unfold advance in E. rewrite Hrun in E. cbn [negb] in E.
   destruct (forallb _ (local_handles p)) eqn:Efa; cbn [negb] in E.
-  2:{ injection E as <- <- <-. exists gs. split; [exact HQS|]. split; [exact HTI|]. split; [apply hist_step_refl|]. split; [reflexivity|apply spec_step_none; [exact Hsok|reflexivity..]]. }
+  2:{ injection E as <- <- <-. exists gs. split; [exact HQS|]. split; [exact HTI|]. split; [apply hist_step_refl|]. split; [reflexivity|]. split; [apply spec_step_none; [exact Hsok|reflexivity..]|constructor]. }
   assert (Hpend : forall h, In h (local_handles p) -> exists pi, assoc_get (ps_pending p) h = Some pi).
   { intros h Hin. rewrite forallb_forall in Efa. specialize (Efa h Hin).
     destruct (assoc_get (ps_pending p) h); [eauto|discriminate]. }
@@ -738,7 +879,8 @@ Proof.
                      else Ok (p, out0)) = Ok (p1, o1) /\ QS w d p1 gs /\ JI w p1 g /\ ps_status p1 = ps_status p /\
                      local_handles p1 = local_handles p /\ ps_pending p1 = ps_pending p /\ ps_remotes p1 = ps_remotes p /\
                      TI p1 gs G /\ (forall G0, replay_hist G0 (o_requests o1) = G0) /\ ps_kinds p1 = ps_kinds p /\
-                     ps_next_spec p1 = ps_next_spec p /\ ps_spectators p1 = ps_spectators p /\ o_spec_sends o1 = []).
+                     ps_next_spec p1 = ps_next_spec p /\ ps_spectators p1 = ps_spectators p /\ o_spec_sends o1 = [] /\
+                     (forall G0, adv_frames G0 (o_requests o1) = [])).
   { destruct (Z.eqb_spec (s_current (ps_sync p)) 0) as [Ec|Ec]; cbn [andb].
     - unfold save_current_state. rewrite Ec. cbn [Z.ltb Z.compare res_bind].
       eexists; eexists. split; [reflexivity|]. split; [|split; [|split; [reflexivity|split; [reflexivity|split; [reflexivity|split; [reflexivity|split; [|split; [|repeat split]]]]]]]].
@@ -754,14 +896,15 @@ Proof.
       + intros G0. reflexivity.
     - exists p, out0. split; [reflexivity|]. split; [exact HQS|]. split; [exact HJI|].
       split; [reflexivity|]. split; [reflexivity|]. split; [reflexivity|]. split; [reflexivity|]. split; [exact HTI|]. split; [intros G0; reflexivity|repeat split]. }
-  destruct Hfirst as (p1 & o1 & E1 & HQS1 & HJI1 & Hst1 & Hlh1 & Hpe1 & Hrm1 & HTI1 & Hrep1 & Hkk1 & Hns1 & Hss1 & Hos1). rewrite E1 in E. cbn [res_bind] in E.
+  destruct Hfirst as (p1 & o1 & E1 & HQS1 & HJI1 & Hst1 & Hlh1 & Hpe1 & Hrm1 & HTI1 & Hrep1 & Hkk1 & Hns1 & Hss1 & Hos1 & Hadv1). rewrite E1 in E. cbn [res_bind] in E.
   rewrite (update_disconnects_noop p1) in E; [|rewrite Hst1; exact Hconn|rewrite Hrm1; exact Hgos]. cbn [res_bind] in E.
   destruct (advance_rollback_frame predict p1 o1) as [[p3 o3]| |] eqn:E3; cbn [res_bind] in E; try discriminate.
   injection E as <- <- <-.
-  destruct (advance_rollback_timeline p1 gs g w d o1 p3 o3 G E3 HQS1 HJI1) as (gs' & R & Ho & HQS' & HTI' & Hh' & Hkk' & cf & Ecf & Hsent & Hns' & Hss'); [| |exact HTI1|].
+  destruct (advance_rollback_timeline p1 gs g w d o1 p3 o3 G E3 HQS1 HJI1) as (gs' & R & Ho & HQS' & HTI' & Hh' & Hkk' & HTR' & cf & Ecf & Hsent & Hns' & Hss'); [| |exact HTI1|].
   { rewrite Hst1. exact Hbnd. }
   { intros h Hin. rewrite Hpe1. apply Hpend. rewrite <- Hlh1. exact Hin. }
   exists gs'. split; [exact HQS'|]. split; [rewrite Ho, replay_hist_app, Hrep1; exact HTI'|]. split; [rewrite <- Hpe1, <- Hlh1; exact Hh'|]. split; [congruence|].
+  split; [|rewrite Ho, adv_frames_app, Hadv1, Hrep1; exact HTR'].
   apply (spec_sent_step p gs cf); [exact Hsok| |congruence| |].
   - apply (cf_bound _ w d p gs cf HQS). unfold confirmed_frame in *. rewrite <- Hst1. exact Ecf.
   - rewrite Hsent, Hos1. unfold spec_sent. rewrite Hss1, Hns1. reflexivity.
@@ -853,7 +996,8 @@ Hypothesis CI_adv : forall p gs g w d p' o r G,
   advance predict p = Ok (p', o, r) ->
   QSg sp w d p gs -> CI w p g -> Forall (fun c => cs_last c < I32MAX) (ps_status p) -> TI p gs G ->
   exists gs', QSg sp w d p' gs' /\ TI p' gs' (replay_hist G (o_requests o)) /\
-    hist_step d (ps_pending p) (local_handles p) gs gs' /\ ps_kinds p' = ps_kinds p /\ spec_step p gs o p'.
+    hist_step d (ps_pending p) (local_handles p) gs gs' /\ ps_kinds p' = ps_kinds p /\ spec_step p gs o p' /\
+    Forall (truthful_lt (s_current (ps_sync p')) gs') (adv_frames G (o_requests o)).
 Hypothesis CI_frame : forall w p g, CI w p g -> gframe g = s_current (ps_sync p).
 Hypothesis CI_start : forall n w d kinds eps nspec, 1 <= w -> CI w (session_start n w sp d kinds eps nspec) (game0 w).
 (* every lemma of this section takes all four hypotheses, whether its proof uses them or not *)
@@ -875,7 +1019,8 @@ Lemma step_timeline_g : forall p gs g w d o,
   QSg sp w d p gs -> CI w p g -> TI p gs (g_hist g) -> op_ok p o = true ->
   exists s gs' g', sstep predict p o = Ok s /\ QSg sp w d (sr_state s) gs' /\
     exec w g (o_requests (sr_out s)) = Some g' /\ CI w (sr_state s) g' /\ TI (sr_state s) gs' (g_hist g') /\
-    op_hist d p o gs gs' /\ ps_kinds (sr_state s) = ps_kinds p /\ spec_step p gs (sr_out s) (sr_state s).
+    op_hist d p o gs gs' /\ ps_kinds (sr_state s) = ps_kinds p /\ spec_step p gs (sr_out s) (sr_state s) /\
+    Forall (truthful_lt (s_current (ps_sync (sr_state s))) gs') (adv_frames (g_hist g) (o_requests (sr_out s))).
 Proof.
   intros p gs g w d o HQS HJI HTI Hok.
   destruct o as [h v|pl f v|ep st|hs|h|h dd|]; cbn [op_ok] in Hok; try discriminate.
@@ -886,7 +1031,7 @@ Proof.
     split; [reflexivity|]. split; [exact HQl|]. split; [reflexivity|]. split; [exact HJ'|]. split; [eapply TI_sync; [exact Hs|exact HTI]|].
     split; [reflexivity|]. unfold api_add_local_input in E1.
     split; [destruct (kind_at p h) as [[| |]|]; injection E1 as <- _; reflexivity|].
-    apply spec_step_none; [exact (qs_spec _ _ _ _ HQS)| | |reflexivity]; destruct (kind_at p h) as [[| |]|]; injection E1 as <- _; reflexivity.
+    split; [|constructor]. apply spec_step_none; [exact (qs_spec _ _ _ _ HQS)| | |reflexivity]; destruct (kind_at p h) as [[| |]|]; injection E1 as <- _; reflexivity.
   - destruct (CI_step p gs g w d (SRemote pl f v) HQS HJI Hok) as (s0 & g0 & Es0 & Ex0 & HJ0).
     apply andb_prop in Hok. destruct Hok as [Hok H5]. apply andb_prop in Hok. destruct Hok as [Hok H4].
     apply andb_prop in Hok. destruct Hok as [Hok H3]. apply andb_prop in Hok. destruct Hok as [H1 H2].
@@ -899,9 +1044,9 @@ Proof.
     split; [reflexivity|]. split; [exact HQ'|]. split; [reflexivity|].
     split; [exact HJ0|].
     split; [|split; [cbn [op_hist]; exists hist, low; split; [exact Eg|reflexivity]|]].
-    2:{ pose proof (qs_spec _ _ _ _ HQS) as Hsk. clear - E Hsk. unfold ev_input in E. destruct (negb _); [discriminate|]. destruct (cs_disc _); [injection E as <-; split; [reflexivity|apply spec_step_none; [exact Hsk|reflexivity..]]|].
+    2:{ pose proof (qs_spec _ _ _ _ HQS) as Hsk. clear - E Hsk. unfold ev_input in E. destruct (negb _); [discriminate|]. destruct (cs_disc _); [injection E as <-; split; [reflexivity|split; [apply spec_step_none; [exact Hsk|reflexivity..]|constructor]]|].
         destruct (negb _); [discriminate|]. destruct (add_remote_input _ _ _ _); cbn [res_bind] in E; try discriminate. injection E as <-.
-        split; [reflexivity|apply spec_step_none; [exact Hsk|reflexivity..]]. }
+        split; [reflexivity|split; [apply spec_step_none; [exact Hsk|reflexivity..]|constructor]]. }
     destruct HTI as (HG & HGI & HPN). unfold TI. rewrite Hc', Hqs'.
     pose proof (Forall2_nth _ _ _ _ _ _ (qs_qs _ _ _ _ HQS) Eq Eg) as Hqi. cbn [fst snd] in Hqi.
     destruct (gq_remote_add _ _ (g_hist g) (Z.to_nat pl) q hist low q' v Hqi (HGI _ _ _ Eq Eg) (HPN _ _ _ Eq Eg) F' P') as (HGQ' & HPN').
@@ -922,17 +1067,17 @@ Proof.
     split; [reflexivity|]. split.
     { apply gossip_progress; [exact HQS|]. apply Forall_forall. intros s0 Hs0. rewrite forallb_forall in Hok.
       specialize (Hok s0 Hs0). destruct (cs_disc s0); [discriminate|reflexivity]. }
-    split; [reflexivity|]. split; [exact HJ'|]. split; [|split; [reflexivity|split; [unfold gossip; destruct (nth_error (ps_remotes p) (Z.to_nat ep)); reflexivity|apply spec_step_none; [exact (qs_spec _ _ _ _ HQS)| | |reflexivity]; unfold gossip; destruct (nth_error (ps_remotes p) (Z.to_nat ep)); reflexivity]]].
+    split; [reflexivity|]. split; [exact HJ'|]. split; [|split; [reflexivity|split; [unfold gossip; destruct (nth_error (ps_remotes p) (Z.to_nat ep)); reflexivity|split; [apply spec_step_none; [exact (qs_spec _ _ _ _ HQS)| | |reflexivity]; unfold gossip; destruct (nth_error (ps_remotes p) (Z.to_nat ep)); reflexivity|constructor]]]].
     eapply TI_sync; [|exact HTI]. unfold gossip. destruct (nth_error (ps_remotes p) (Z.to_nat ep)); reflexivity.
   - assert (Hbnd : Forall (fun c => cs_last c < I32MAX) (ps_status p)).
     { apply Forall_forall. intros s0 Hs0. rewrite forallb_forall in Hok. specialize (Hok s0 Hs0). lia. }
     destruct (CI_step p gs g w d SAdvance HQS HJI Hok) as (s0 & g' & Es0 & Ex & HJ').
     cbn [sstep] in Es0. destruct (advance predict p) as [[[p' o] r]| |] eqn:E; cbn [res_bind] in Es0; try discriminate. injection Es0 as <-.
     cbn [sr_state sr_out] in Ex, HJ'.
-    destruct (CI_adv p gs g w d p' o r (g_hist g) E HQS HJI Hbnd HTI) as (gs' & HQ' & HTI' & Hh' & Hkk' & Hss').
+    destruct (CI_adv p gs g w d p' o r (g_hist g) E HQS HJI Hbnd HTI) as (gs' & HQ' & HTI' & Hh' & Hkk' & Hss' & HTR').
     cbn [sstep]. rewrite ?E. cbn [res_bind].
     exists (mksr p' o r), gs', g'. cbn [sr_state sr_out]. split; [reflexivity|]. split; [exact HQ'|]. split; [exact Ex|].
-    split; [exact HJ'|]. split; [rewrite (exec_hist _ _ _ _ Ex); exact HTI'|]. split; [exact Hh'|split; [exact Hkk'|exact Hss']].
+    split; [exact HJ'|]. split; [rewrite (exec_hist _ _ _ _ Ex); exact HTI'|]. split; [exact Hh'|split; [exact Hkk'|split; [exact Hss'|exact HTR']]].
 Qed.
 
 (* the run theorem with the timeline invariant *)
@@ -946,7 +1091,7 @@ Proof.
   - right. exists p, [], gs, g. cbn [srun_in srun exec_outs]. split; [reflexivity|]. split; [reflexivity|]. split; [reflexivity|].
     split; [exact HQS|]. split; [exact HJI|exact HTI].
   - cbn [srun_in srun]. destruct (op_ok p o) eqn:Hok; [|left; reflexivity].
-    destruct (step_timeline_g p gs g w d o HQS HJI HTI Hok) as (s & gs1 & g1 & Es & HQ1 & Ex1 & HJ1 & HT1 & _ & _ & _).
+    destruct (step_timeline_g p gs g w d o HQS HJI HTI Hok) as (s & gs1 & g1 & Es & HQ1 & Ex1 & HJ1 & HT1 & _ & _ & _ & _).
     rewrite Es. cbn [res_bind].
     destruct (IH (sr_state s) gs1 g1 w d HQ1 HJ1 HT1) as [Herr|(p' & outs & gs' & g' & E1 & E2 & Ex & HQ' & HJ' & HT')].
     + left. rewrite Herr. reflexivity.
@@ -977,7 +1122,7 @@ Proof.
     split; [exact HQS|]. split; [exact HJI|]. split; [exact HTI|]. split; [reflexivity|].
     intros pl e hist low _ _ A. exists low. rewrite app_nil_r. exact A.
   - cbn [srun_in srun]. destruct (op_ok p o) eqn:Hok; [|left; reflexivity].
-    destruct (step_timeline_g p gs g w d o HQS HJI HTI Hok) as (s & gs1 & g1 & Es & HQ1 & Ex1 & HJ1 & HT1 & Hop & Hk1 & _).
+    destruct (step_timeline_g p gs g w d o HQS HJI HTI Hok) as (s & gs1 & g1 & Es & HQ1 & Ex1 & HJ1 & HT1 & Hop & Hk1 & _ & _).
     rewrite Es. cbn [res_bind].
     destruct (IH (sr_state s) gs1 g1 w d HQ1 HJ1 HT1) as [Herr|(p' & outs & gs' & g' & E1 & E2 & Ex & HQ' & HJ' & HT' & Hk' & Hst')].
     + left. rewrite Herr. reflexivity.
@@ -1084,7 +1229,7 @@ Proof.
     split; [exact HQS|]. split; [exact HJI|]. split; [exact HTI|]. split; [apply grows_gs_refl|]. split; [reflexivity|]. split; [reflexivity|].
     split; [lia|]. rewrite Z.sub_diag. reflexivity.
   - cbn [srun_in]. destruct (op_ok p o) eqn:Hok; [|left; reflexivity].
-    destruct (step_timeline_g p gs g w d o HQS HJI HTI Hok) as (s & gs1 & g1 & Es & HQ1 & Ex1 & HJ1 & HT1 & Hop & Hk1 & (Hss & n & Hsend & Hns & Hbound)).
+    destruct (step_timeline_g p gs g w d o HQS HJI HTI Hok) as (s & gs1 & g1 & Es & HQ1 & Ex1 & HJ1 & HT1 & Hop & Hk1 & (Hss & n & Hsend & Hns & Hbound) & _).
     rewrite Es. cbn [res_bind].
     assert (Hnp1 : ps_nplayers (sr_state s) = ps_nplayers p).
     { destruct (qs_n _ _ _ _ HQ1) as (_ & _ & A & _). destruct (qs_n _ _ _ _ HQS) as (_ & _ & B & _).
@@ -1194,7 +1339,7 @@ Theorem held_inputs_step_g : forall p gs g w d o,
     TI (sr_state s) gs' (g_hist g') /\ op_hist d p o gs gs'.
 Proof.
   intros p gs g w d o HQS HJI HTI Hok.
-  destruct (step_timeline_g p gs g w d o HQS HJI HTI Hok) as (s & gs' & g' & A & B & _ & C & D & E & _ & _).
+  destruct (step_timeline_g p gs g w d o HQS HJI HTI Hok) as (s & gs' & g' & A & B & _ & C & D & E & _ & _ & _).
   exists s, gs', g'. split; [exact A|]. split; [exact B|]. split; [exact C|]. split; [exact D|exact E].
 Qed.
 
@@ -1223,6 +1368,67 @@ Proof.
     exact (qs_spec _ _ _ _ HQS Hne).
 Qed.
 
+(* the invariants hold in every state a run inside the space reaches *)
+Theorem invariants_reachable_g : forall ops n w d kinds eps nspec p outs,
+  1 <= w -> 0 <= d -> w + d + 3 <= QLEN -> 0 < n -> Z.of_nat (length kinds) = n -> players_only kinds ->
+  srun_in predict (session_start n w sp d kinds eps nspec) ops = Ok (p, outs) ->
+  exists g gs, exec_outs w (game0 w) outs = Some g /\ QSg sp w d p gs /\ CI w p g /\ TI p gs (g_hist g).
+Proof.
+  intros ops n w d kinds eps nspec p outs Hw Hd Hcap Hn Hlen Hpl H.
+  destruct (run_timeline_g ops _ _ (game0 w) w d (QS_start_gen sp n w d kinds eps nspec Hw Hd Hcap Hn Hlen Hpl)
+              (CI_start n w d kinds eps nspec Hw) (TI_start_g n w d kinds eps nspec))
+    as [E|(p' & outs' & gs & g & E1 & _ & Ex & HQS & HJ & HT)]; [congruence|].
+  rewrite H in E1. injection E1 as <- <-. exists g, gs. split; [exact Ex|]. split; [exact HQS|]. split; [exact HJ|exact HT].
+Qed.
+
+(* C03 on one session, call by call: in every reachable state (the invariants hold there: run_timeline) an
+   operation inside the space succeeds and EVERY AdvanceFrame request it emits - the first simulation of a
+   new frame and every re-simulation after a Load alike - is truthful against the inputs the session holds
+   when the call returns: for every player, Confirmed = that frame is held and the value is the held input,
+   Predicted = the frame lies beyond everything held and the value is the predictor applied to the newest held
+   input (the default input if there is none). *)
+Theorem requests_truthful_step_g : forall p gs g w d o,
+  QSg sp w d p gs -> CI w p g -> TI p gs (g_hist g) -> op_ok p o = true ->
+  exists s gs' g', sstep predict p o = Ok s /\ QSg sp w d (sr_state s) gs' /\ CI w (sr_state s) g' /\
+    TI (sr_state s) gs' (g_hist g') /\ op_hist d p o gs gs' /\
+    Forall (truthful_lt (s_current (ps_sync (sr_state s))) gs') (adv_frames (g_hist g) (o_requests (sr_out s))).
+Proof.
+  intros p gs g w d o HQS HJI HTI Hok.
+  destruct (step_timeline_g p gs g w d o HQS HJI HTI Hok) as (s & gs' & g' & A & B & _ & C & D & E & _ & _ & F).
+  exists s, gs', g'. split; [exact A|]. split; [exact B|]. split; [exact C|]. split; [exact D|]. split; [exact E|exact F].
+Qed.
+
+(* confirmed_frame() never decreases along a step inside the space *)
+Theorem confirmed_frame_monotone_g : forall p gs g w d o s cf cf',
+  QSg sp w d p gs -> CI w p g -> TI p gs (g_hist g) -> op_ok p o = true ->
+  sstep predict p o = Ok s -> confirmed_frame p = Ok cf -> confirmed_frame (sr_state s) = Ok cf' -> cf <= cf'.
+Proof.
+  intros p gs g w d o s cf cf' HQS HJI HTI Hok Es Ecf Ecf'.
+  destruct (step_timeline_g p gs g w d o HQS HJI HTI Hok) as (s0 & gs' & g' & A & B & _ & _ & _ & E & K & _ & _).
+  rewrite Es in A. injection A as <-.
+  assert (Hnp : ps_nplayers (sr_state s) = ps_nplayers p).
+  { destruct (qs_n _ _ _ _ B) as (A1 & _ & A3 & _). destruct (qs_n _ _ _ _ HQS) as (B1 & _ & B3 & _). rewrite K in A3. lia. }
+  destruct (op_hist_grows_g w d p o gs gs' (sr_state s) HQS B Hnp E) as (Hl & Hg).
+  unfold confirmed_frame in Ecf, Ecf'.
+  destruct (cf_fold (ps_status p) I32MAX (qs_conn _ _ _ _ HQS)) as (_ & B1 & _).
+  destruct (cf_fold (ps_status (sr_state s)) I32MAX (qs_conn _ _ _ _ B)) as (_ & _ & C2).
+  set (m := fold_left _ (ps_status p) _) in *. set (m' := fold_left _ (ps_status (sr_state s)) _) in *.
+  destruct (m <? I32MAX) eqn:Em; [|discriminate]. injection Ecf as <-.
+  destruct (m' <? I32MAX) eqn:Em'; [|discriminate]. injection Ecf' as <-.
+  destruct C2 as [C2|C2]; [lia|]. apply Exists_exists in C2. destruct C2 as (st' & Hin & ->).
+  apply In_nth_error in Hin. destruct Hin as (h & Hh).
+  pose proof (qs_last _ _ _ _ B) as HL'. pose proof (qs_last _ _ _ _ HQS) as HL.
+  destruct (nth_error_some_len gs' (ps_status (sr_state s)) h st' (eq_sym (Forall2_len _ _ _ HL')) Hh) as (g1 & Hg1).
+  pose proof (Forall2_nth _ _ _ _ _ _ HL' Hh Hg1) as R1. cbv beta in R1.
+  destruct (Hg h g1 Hg1) as (g0 & ext & Hg0 & Hext).
+  assert (exists st0, nth_error (ps_status p) h = Some st0) as (st0 & Hst0).
+  { destruct (nth_error (ps_status p) h) eqn:X; [eauto|]. exfalso. apply nth_error_None in X.
+    pose proof (Forall2_len _ _ _ HL) as Hl0. assert (h < length gs)%nat as Y by (apply nth_error_Some; congruence). unfold ghost in *. lia. }
+  pose proof (Forall2_nth _ _ _ _ _ _ HL Hst0 Hg0) as R0. cbv beta in R0.
+  rewrite Forall_forall in B1. pose proof (B1 st0 (nth_error_In _ _ Hst0)).
+  rewrite R1, Hext. unfold hlen in *. rewrite app_length. lia.
+Qed.
+
 Unset Default Proof Using.
 End Generic.
 
@@ -1248,6 +1454,9 @@ Definition held_inputs_step := held_inputs_step_g false JI dense_CI_step advance
 Definition host_broadcast_is_confirmed_timeline :=
   host_broadcast_is_confirmed_timeline_g false JI dense_CI_step advance_timeline ji_frame dense_CI_start.
 Definition TI_start := TI_start_g false JI dense_CI_step advance_timeline ji_frame dense_CI_start.
+Definition invariants_reachable := invariants_reachable_g false JI dense_CI_step advance_timeline ji_frame dense_CI_start.
+Definition requests_truthful_step := requests_truthful_step_g false JI dense_CI_step advance_timeline ji_frame dense_CI_start.
+Definition confirmed_frame_monotone := confirmed_frame_monotone_g false JI dense_CI_step advance_timeline ji_frame dense_CI_start.
 
 (* C09's premise: at every call boundary of a run inside the space, the state saved for a confirmed
    frame F that is still inside the saved-state window is the serial replay of the held inputs of the
